@@ -62,4 +62,168 @@ theorem take_drop_comm {β : Type} (l : List β) (k n : Nat) (hk : k ≤ n) : (l
   rw [List.take_drop]; congr 2; omega
 
 
+theorem index_shape_of_check (ish bs : Shape) (dim : Nat) (hl : ish.length = bs.length)
+    (h : ¬ ((List.range (min ish.length bs.length)).any fun i => decide (i ≠ dim ∧ ish.getD i 0 ≠ bs.getD i 0)) = true) :
+    ish = bs.set dim (ish.getD dim 0) := by
+  apply List.ext_getElem?; intro k
+  simp only [List.any_eq_true, List.mem_range, decide_eq_true_eq, not_exists, not_and] at h
+  by_cases hk : k < bs.length
+  · by_cases hkd : dim = k
+    · subst hkd; simp [List.getElem?_set, hk, List.getD_eq_getElem?_getD, List.getElem?_eq_getElem (hl ▸ hk)]
+    · have := h k (by rw [hl]; simpa using hk)
+      have hne : k ≠ dim := fun e => hkd e.symm
+      have heq : ish[k]?.getD 0 = bs[k]?.getD 0 := by simpa [List.getD_eq_getElem?_getD] using this hne
+      simp only [List.getElem?_set, hkd, if_false]
+      rw [List.getElem?_eq_getElem (hl ▸ hk), List.getElem?_eq_getElem hk] at heq ⊢
+      simpa using heq
+  · rw [List.getElem?_eq_none (by omega), List.getElem?_eq_none (by simp; omega)]
+
+theorem lookupEntry_isSome_iff (k : String) : ∀ (es : List (String × TD α)), (lookupEntry k es).isSome = (es.map (·.1)).contains k
+  | [] => rfl
+  | (k', e) :: rest => by
+    simp only [lookupEntry, List.map_cons, List.contains_cons]
+    by_cases h : k' = k
+    · subst h; simp
+    · have : (k == k') = false := by simp [Ne.symm h]
+      simp only [h, if_false, this, Bool.false_or]; exact lookupEntry_isSome_iff k rest
+
+/-- when every operand has the key set of the first one, every key of the first one is found in every operand -/
+theorem filterMap_lookup_length (first : List (String × TD α)) (others : List (List (String × TD α)))
+    (h : sameKeySets first others = true) (k : String) (hk : k ∈ first.map (·.1)) :
+    (others.filterMap (lookupEntry k)).length = others.length := by
+  induction others with
+  | nil => rfl
+  | cons o rest ih =>
+    simp only [sameKeySets, List.all_cons, Bool.and_eq_true] at h
+    have hin : (o.map (·.1)).contains k = true := by
+      have := h.1.2
+      rw [List.all_eq_true] at this
+      exact this k hk
+    have hs : (lookupEntry k o).isSome = true := by rw [lookupEntry_isSome_iff]; exact hin
+    obtain ⟨v, hv⟩ := Option.isSome_iff_exists.1 hs
+    simp only [List.filterMap_cons, hv, List.length_cons]
+    rw [ih (by simpa [sameKeySets] using h.2)]
+
+
+theorem mapM_asLeaf_shapes : ∀ (vals : List (TD α)) (ts : List (T α)), vals.mapM asLeaf = some ts → ts.length = vals.length :=
+  fun vals ts h => length_mapM_option _ _ _ h
+
+
+theorem lookupEntry_coherent (k : String) (b : Shape) : ∀ (es : List (String × TD α)) (v : TD α),
+    CoherentList b es → lookupEntry k es = some v → PrefixOK b v ∧ Coherent v
+  | [], _, _, h => by simp [lookupEntry] at h
+  | (k', e) :: rest, v, hc, h => by
+    simp only [CoherentList] at hc
+    simp only [lookupEntry] at h
+    by_cases hk : k' = k
+    · simp only [hk, if_true, Option.some.injEq] at h; subst h; exact ⟨hc.1, hc.2.1⟩
+    · simp only [hk, if_false] at h; exact lookupEntry_coherent k b rest v hc.2.2 h
+
+/-- when the key is found in every operand, the found values line up with the operands -/
+theorem filterMap_lookup_vals (k : String) (dim : Nat) : ∀ (others : List (List (String × TD α))) (obs : List Shape),
+    OpsOK obs others → (∀ b ∈ obs, dim < b.length) →
+    (others.filterMap (lookupEntry k)).length = others.length → ValsOK dim obs (others.filterMap (lookupEntry k))
+  | [], [], _, _, _ => ⟨rfl, by simp⟩
+  | [], _ :: _, h, _, _ => by simp [OpsOK] at h
+  | _ :: _, [], h, _, _ => by simp [OpsOK] at h
+  | o :: rest, b :: obs, h, hn, hl => by
+    have hle := List.length_filterMap_le (lookupEntry k) rest
+    cases hv : lookupEntry k o with
+    | none => simp [List.filterMap_cons, hv] at hl; omega
+    | some v =>
+      simp only [List.filterMap_cons, hv, List.length_cons, Nat.add_right_cancel_iff] at hl
+      have hrest : OpsOK obs rest := ⟨by have := h.1; simpa using this, fun p hp => h.2 p (by simp [hp])⟩
+      have ih := filterMap_lookup_vals k dim rest obs hrest (fun b' hb' => hn b' (by simp [hb'])) hl
+      have hco := h.2 (o, b) (by simp)
+      obtain ⟨hp, hcv⟩ := lookupEntry_coherent k b o v hco hv
+      refine ⟨by simp [List.filterMap_cons, hv, ih.1], ?_⟩
+      intro p hp'
+      simp only [List.filterMap_cons, hv, List.zip_cons_cons, List.mem_cons] at hp'
+      rcases hp' with rfl | hp'
+      · exact ⟨hn b (by simp), hp, hcv⟩
+      · exact ih.2 p hp'
+
+theorem getD_of_take {l b : List Nat} {dim : Nat} (h : l.take b.length = b) (hd : dim < b.length) : l.getD dim 0 = b.getD dim 0 := by
+  have : (l.take b.length)[dim]? = b[dim]? := by rw [h]
+  rw [List.getElem?_take] at this
+  simp only [hd, if_true] at this
+  simp [List.getD_eq_getElem?_getD, this]
+
+/-- the leaves found in the operands have, along `dim`, the operands' batch sizes -/
+theorem leaf_sizes_sum (dim : Nat) : ∀ (vals : List (TD α)) (ts : List (T α)) (obs : List Shape),
+    vals.mapM asLeaf = some ts → ValsOK dim obs vals →
+    (ts.map (fun u => u.shape.getD dim 0)).sum = (obs.map (·.getD dim 0)).sum
+  | [], ts, obs, h, hv => by
+    simp at h; subst h
+    have : obs = [] := List.eq_nil_of_length_eq_zero (by simpa using hv.1)
+    subst this; rfl
+  | v :: vals, ts, [], _, hv => by simp [ValsOK] at hv
+  | v :: vals, ts, b :: obs, h, hv => by
+    rw [List.mapM_cons] at h
+    cases hv1 : asLeaf v with
+    | none => simp [hv1] at h
+    | some t =>
+      cases hm : vals.mapM asLeaf with
+      | none => simp [hv1, hm] at h
+      | some ts' =>
+        simp [hv1, hm] at h
+        subst h
+        have hvt : v = .leaf t := by cases v <;> simp [asLeaf] at hv1; subst hv1; rfl
+        subst hvt
+        have h0 := hv.2 (.leaf t, b) (by simp)
+        have hrest : ValsOK dim obs vals := ⟨by have := hv.1; simpa using this, fun p hp => hv.2 p (by simp [hp])⟩
+        simp only [List.map_cons, List.sum_cons]
+        rw [leaf_sizes_sum dim vals ts' obs hm hrest]
+        have h01 : dim < b.length := h0.1
+        have h02 : t.shape.take b.length = b := by simpa [PrefixOK] using h0.2.1
+        have := getD_of_take h02 h01
+        omega
+
+
+/-- the nested tensordicts found in the operands: their batch sizes agree with the operands' along `dim`, and they are coherent -/
+theorem nested_sizes_sum (dim : Nat) : ∀ (vals : List (TD α)) (os : List (Shape × List (String × TD α))) (obs : List Shape),
+    vals.mapM nodeView = some os → ValsOK dim obs vals →
+    (os.map (fun o => o.1.getD dim 0)).sum = (obs.map (·.getD dim 0)).sum ∧
+      OpsOK (os.map (·.1)) (os.map (·.2)) ∧ (∀ o ∈ os, dim < o.1.length)
+  | [], os, obs, h, hv => by
+    simp at h; subst h
+    have : obs = [] := List.eq_nil_of_length_eq_zero (by simpa using hv.1)
+    subst this; exact ⟨rfl, ⟨rfl, by simp⟩, by simp⟩
+  | v :: vals, os, [], _, hv => by simp [ValsOK] at hv
+  | v :: vals, os, b :: obs, h, hv => by
+    rw [List.mapM_cons] at h
+    cases hv1 : nodeView v with
+    | none => simp [hv1] at h
+    | some o =>
+      cases hm : vals.mapM nodeView with
+      | none => simp [hv1, hm] at h
+      | some os' =>
+        simp [hv1, hm] at h
+        subst h
+        obtain ⟨b2, nm2, es2, rfl, rfl⟩ : ∃ b2 nm2 es2, v = .node b2 nm2 es2 ∧ o = (b2, es2) := by
+          cases v with
+          | leaf t => simp [nodeView] at hv1
+          | node b2 nm2 es2 => simp [nodeView] at hv1; exact ⟨b2, nm2, es2, rfl, hv1.symm⟩
+        have h0 := hv.2 (.node b2 nm2 es2, b) (by simp)
+        have hrest : ValsOK dim obs vals := ⟨by have := hv.1; simpa using this, fun p hp => hv.2 p (by simp [hp])⟩
+        obtain ⟨ih1, ih2, ih3⟩ := nested_sizes_sum dim vals os' obs hm hrest
+        have h01 : dim < b.length := h0.1
+        have h02 : b2.take b.length = b := by simpa [PrefixOK] using h0.2.1
+        have hlen : b.length ≤ b2.length := by have := congrArg List.length h02; simp at this; omega
+        have hg := getD_of_take h02 h01
+        refine ⟨?_, ⟨by simp [ih2.1], ?_⟩, ?_⟩
+        · simp only [List.map_cons, List.sum_cons]; rw [ih1]; omega
+        · intro p hp
+          simp only [List.map_cons, List.zip_cons_cons, List.mem_cons] at hp
+          rcases hp with rfl | hp
+          · simpa [Coherent] using h0.2.2
+          · exact ih2.2 p hp
+        · intro o ho
+          simp only [List.mem_cons] at ho
+          rcases ho with rfl | ho
+          · simp; omega
+          · exact ih3 o ho
+
+
+
 end TdVerif.C02
